@@ -22,7 +22,9 @@ CHECKS["C02"] = dict(
         "(unary, binary, assignment family, inline-if, indexing, field access, calls, builtin functions, quantifiers, rate; unbounded size), "
         "any redundant parentheses, alias / unary-plus / imply laws, exact-or-rejected integer literals, and equality (by decide) of the "
         "generated table with a hand-written reference operator table, and of the 61 builtin functions (name, node kind, arity) with a hand-written "
-        "reference list (utap_builtins_match_spec). The model parser is compared with the real parser on every operator "
+        "reference list (utap_builtins_match_spec); the length guards of the identifier and string-literal rules of lexer.l are translated and "
+        "C02_identifier_not_truncated / C02_string_not_truncated prove that no name or string that is not reported is cut by the token buffer. "
+        "The model parser is compared with the real parser on every operator "
         "pair/triple, random trees, mutated token strings, boundary literals, calls of process sets (argument order) and every builtin name, all "
         "in one process with rejected inputs (unterminated comment, string, bracket) interleaved; the reference table decides disagreements and yields the replay.",
    note="Trusted: Lean kernel, axioms propext/Quot.sound/Classical.choice, translate/exprgrammar.py, harness/c02.cpp, the reference table "
@@ -37,13 +39,18 @@ CHECKS["C03"] = dict(
         "str(parse(str e)) = str e for every tree (all operator pairs and positions, unbounded) that meets a computed, decidable criterion; "
         "the criterion's failures are enumerated from the tables as (parent, position, child) classes, each with a regenerated witness "
         "theorem proving the negation, and replayed on the library. Correspondence: real str() against the model's token stream, real "
-        "parse/str/parse/equal/str on random accepted trees and all witnesses. Query forms (A[] E<> Pr E[] simulate control* minE/maxE "
-        "strategies) are exercised on the real library by the same oracle but are outside the Lean model (testing). String constants are modelled at "
+        "parse/str/parse/equal/str on random accepted trees and all witnesses. Verification queries: a query layer (Model/Query.lean) for A<> A[] E<> E[] "
+        "--> A[U] A[W], control / E<> control / control_t* / {..} control, sup / inf / bounds, whose printer is driven by the layouts regenerated "
+        "from expression_t::print and whose parser's productions are proved to be productions of parser.y with the same callbacks "
+        "(C03_query_tables): C03_query_roundtrip, parse(str q) = q for every such query over operands of any size that meet the criterion; compared "
+        "with the real query parser and printer on every generated query. The statistical forms (Pr E[] simulate), minE/maxE, strategies and the "
+        "Buchi form are exercised on the real library by the same oracle but are outside the Lean model (testing). String constants are modelled at "
         "the text level (std::quoted on output, the lexer rule, std::quoted on input): C03_string_roundtrip for every non-empty value without a double quote.",
    note="Trusted: Lean kernel, axioms propext/Quot.sound/Classical.choice, translate/printer.py + exprgrammar.py, harness/c02.cpp, c03q.cpp. "
         "The theorem is about token streams; that lexing the printed text gives those tokens is checked per case, not proved. Literal "
-        "formatting of doubles and of -2147483648, the quantifier binder type text and all query syntax are not modelled: deviations there "
-        "are found by the differential oracle only (3 known findings listed in known_findings.d/C03.json; 5 defects repaired by fix: commits).",
+        "formatting of doubles and of -2147483648, the quantifier binder type text and the statistical query syntax are not modelled: deviations there "
+        "are found by the differential oracle only (3 known findings listed in known_findings.d/C03.json; 6 defects repaired by fix: commits). "
+        "That bison's LALR automaton on the query productions behaves as the hand-written query parser is validated by comparing trees, not proved.",
    technique="Lean 4 print/parse round-trip theorem over tables translated from expression.cpp and parser.y + differential correspondence",
    design="4/C03")
 
